@@ -173,18 +173,40 @@ def reg_snapshot(r):
                   for k, v in hr.items()))
 
 
+_SUBS = {}
+
+
+def reg_class(cls):
+    """library class or a caller-defined subclass of it ("<cls>-sub")"""
+    from joserfc import jws, jwe
+    from joserfc.rfc7797.registry import JWSRegistry as R7797
+    base = {"jws": jws.JWSRegistry, "7797": R7797, "jwe": jwe.JWERegistry}[cls.split("-")[0]]
+    if not cls.endswith("-sub"):
+        return base
+    if cls not in _SUBS:
+        _SUBS[cls] = type("C05Sub" + base.__name__ + cls.split("-")[0], (base,), {"__module__": __name__})
+    return _SUBS[cls]
+
+
+def fam_of(cls):
+    return "jwe" if cls.startswith("jwe") else "jws"
+
+
+def b64_tolerant(sd):
+    """can a registry of this description check a header that contains "b64"?"""
+    return sd["cls"].startswith("7797") or not sd.get("strict", True) or "b64" in sd.get("extra", [])
+
+
 def build_registry(sd):
     import copy
-    from joserfc import jws, jwe
     from joserfc.registry import HeaderParameter
-    from joserfc.rfc7797.registry import JWSRegistry as R7797
     allowed = copy.deepcopy(sd["allowed"])
-    extra = {k: HeaderParameter("c05 extra header", "str") for k in sd.get("extra", [])} or None
-    if sd["cls"] == "jwe":
-        r = jwe.JWERegistry(header_registry=extra, algorithms=allowed,
-                            verify_all_recipients=sd.get("verify_all", True), strict_check_header=sd.get("strict", True))
+    extra = {k: HeaderParameter("c05 extra header", "bool" if k == "b64" else "str") for k in sd.get("extra", [])} or None
+    cls = reg_class(sd["cls"])
+    if fam_of(sd["cls"]) == "jwe":
+        r = cls(header_registry=extra, algorithms=allowed,
+                verify_all_recipients=sd.get("verify_all", True), strict_check_header=sd.get("strict", True))
     else:
-        cls = jws.JWSRegistry if sd["cls"] == "jws" else R7797
         r = cls(header_registry=extra, algorithms=allowed, strict_check_header=sd.get("strict", True))
     TRACK.append((r, reg_snapshot(r)))
     return r
@@ -536,7 +558,7 @@ def c_alw(v):
     return "PNone" if (v is ABSENT or v is None) else c_pv(v)
 
 
-RCLS = {"jws": "RcJws", "7797": "Rc7797", "jwe": "RcJwe"}
+RCLS = {"jws": "RcJws", "7797": "Rc7797", "jwe": "RcJwe", "jws-sub": "RcJwsSub", "7797-sub": "Rc7797Sub", "jwe-sub": "RcJweSub"}
 
 
 def c_regsel(r):
@@ -561,7 +583,9 @@ def heap_observed(idx_list=None):
     out = []
     for sd, r in HEAP:
         cls = "jwe" if isinstance(r, JWERegistry) else ("7797" if isinstance(r, R7797) else "jws")
-        base = set(getattr(type(r), "default_header_registry", {})) if cls != "jwe" else None
+        if type(r).__name__.startswith("C05Sub"):
+            cls += "-sub"
+        base = set(getattr(type(r), "default_header_registry", {})) if not cls.startswith("jwe") else None
         if base is None:
             from joserfc.registry import JWE_HEADER_REGISTRY
             base = set(JWE_HEADER_REGISTRY)
@@ -755,23 +779,37 @@ class Gen:
         rec = REC_JWS if fam == "jws" else REC_JWE
         ill = rng.random() < 0.04
         mode = rng.choice(["none", "alg", "alg", "alg", "reg", "reg", "both", "algnone"])
-        cls = fam if fam == "jwe" else ("7797" if (b64present or rng.random() < 0.2) else "jws")
+        # every WAY of passing the list: the entry point's own registry class, the BASE class
+        # (jws.JWSRegistry given to rfc7797 functions, made b64-tolerant through its own
+        # header_registry or strict_check_header=False), the rfc7797 subclass given to jws
+        # functions, caller-defined subclasses of each
+        if fam == "jwe":
+            cls = rng.choice(["jwe", "jwe", "jwe", "jwe-sub"])
+        else:
+            cls = rng.choice(["jws", "jws", "7797", "7797", "jws-sub", "7797-sub"])
         algorithms, registry = ABSENT, ABSENT
         if mode in ("alg", "both"):
             algorithms = self.allow_for(used, universe, rec, ill)
         if mode == "algnone":
             algorithms = None
         if mode in ("reg", "both"):
-            registry = (cls, self.allow_for(used, universe, rec, ill))
-            if rng.random() < 0.2:
-                registry = ("fresh", self.settings(cls, registry[1]))
+            allowed = self.allow_for(used, universe, rec, ill)
+            registry = (cls, allowed)
+            if rng.random() < 0.2 or cls.endswith("-sub") or (b64present and not cls.startswith("7797")):
+                registry = ("fresh", self.settings(cls, allowed, b64present))
         return algorithms, registry
 
-    def settings(self, cls, allowed):
+    def settings(self, cls, allowed, b64present=False):
         rng = self.rng
-        return {"cls": cls, "allowed": allowed, "strict": rng.random() < 0.6,
-                "verify_all": rng.random() < 0.6 if cls == "jwe" else True,
-                "extra": rng.choice([[], [], ["c05x"], ["c05x", "c05y"]])}
+        sd = {"cls": cls, "allowed": allowed, "strict": rng.random() < 0.6,
+              "verify_all": rng.random() < 0.6 if cls.startswith("jwe") else True,
+              "extra": rng.choice([[], [], ["c05x"], ["c05x", "c05y"]])}
+        if b64present and not b64_tolerant(sd):
+            if rng.random() < 0.5:
+                sd["extra"] = sd["extra"] + ["b64"]
+            else:
+                sd["strict"] = False
+        return sd
 
     def jws_algs(self, n=1, json_only=False):
         rng = self.rng
@@ -805,7 +843,7 @@ def gate_calls(g, ctx):
             allows = [[n] if isinstance(n, str) else [n, "HS256"]] + rng.sample(fixed, min(len(fixed), 3 if ctx.quick else len(fixed)))
             allows += [g.allow_for([n], universe, rec, rng.random() < 0.1) for _ in range(k)]
             for a in allows:
-                c = cls if cls == "jwe" else rng.choice(["jws", "jws", "7797"])
+                c = rng.choice(["jwe", "jwe", "jwe-sub"]) if cls == "jwe" else rng.choice(["jws", "jws", "7797", "jws-sub", "7797-sub"])
                 calls.append({"op": op, "name": n, "algorithms": ABSENT, "registry": (c, a)})
     return calls
 
@@ -826,12 +864,29 @@ def jws_calls(g, ctx):
         for algs in name_sets:
             b64v = rng.choice([ABSENT, ABSENT, True, False]) if is7797 else ABSENT
             algorithms, registry = g.args("jws", algs, b64present=b64v is not ABSENT)
-            if op in ("jwt.encode", "jwt.decode") and registry is not ABSENT:
+            if op in ("jwt.encode", "jwt.decode") and registry is not ABSENT and fam_of(spec_of(registry)["cls"]) == "jwe":
                 registry = ("jws", spec_of(registry)["allowed"])
             d = {"op": op, "algs": algs, "b64": b64v, "algorithms": algorithms, "registry": registry}
             if op == "jws.serialize_json/flat":
                 d["hdrloc"] = rng.choice(["protected", "protected", "header"])
             calls.append(d)
+    # every way of handing the list to an rfc7797 entry point whose header has "b64": the base
+    # class jws.JWSRegistry (b64-tolerant through its own header_registry or non-strict), the
+    # rfc7797 class, subclasses of both; with and without algorithms=; sign and verify
+    nonrec = [a for a in g.jws_names if a not in REC_JWS and a != "none"]
+    for op in [o for o in JWS_SIGN_OPS + JWS_VERIFY_OPS if o.startswith("rfc7797")]:
+        for b64v in (True, False):
+            for cls in ("jws", "jws-sub", "7797", "7797-sub"):
+                for tol in ("extra", "nonstrict"):
+                    for _ in range(ctx.scale(1, 4)):
+                        listed, other = rng.choice(nonrec), rng.choice(REC_JWS)
+                        for alg, allowed in ((listed, [listed]), (other, [listed]), (other, None), (listed, []),
+                                             (listed, [listed, other, "XX"])):
+                            sd = {"cls": cls, "allowed": allowed, "strict": tol != "nonstrict", "verify_all": True,
+                                  "extra": ["b64"] if tol == "extra" else []}
+                            algorithms = rng.choice([ABSENT, ABSENT, None, [], [other], [listed]])
+                            calls.append({"op": op, "algs": [alg], "b64": b64v, "algorithms": algorithms,
+                                          "registry": ("fresh", sd)})
     return calls
 
 
@@ -893,20 +948,29 @@ def shared_specs(g):
             out.append({"cls": cls, "allowed": a, "strict": True, "verify_all": True, "extra": []})
         for a in (None, list(rec), nonrec[:4]):
             out.append(g.settings(cls, a))
+        out.append(g.settings(cls + "-sub", nonrec[:2] + [rec[0]]))
+    # base-class (and base-subclass) registries that can check a header with "b64"
+    Jn = [n for n in J if n not in REC_JWS]
+    for cls, a, strict, extra in (("jws", ["HS512"], True, ["b64"]), ("jws", ["HS512", "RS384"], False, []),
+                                  ("jws", None, True, ["b64"]), ("jws", [], False, []),
+                                  ("jws-sub", Jn[:3], True, ["b64"]), ("jws", list(J), False, ["b64"]),
+                                  ("7797-sub", ["HS384", "ES256"], True, [])):
+        out.append({"cls": cls, "allowed": a, "strict": strict, "verify_all": True, "extra": extra})
     return out
 
 
 def shared_call(g, ctx, refs):
     """one call of a history over shared registry objects; refs = heap indices in play"""
     rng, SUP = g.rng, g.SUP
-    by = {"jws": [i for i in refs if HEAP[i][0]["cls"] == "jws"], "7797": [i for i in refs if HEAP[i][0]["cls"] == "7797"],
-          "jwe": [i for i in refs if HEAP[i][0]["cls"] == "jwe"]}
+    by = {"jws": [i for i in refs if fam_of(HEAP[i][0]["cls"]) == "jws"],
+          "7797": [i for i in refs if fam_of(HEAP[i][0]["cls"]) == "jws" and b64_tolerant(HEAP[i][0])],
+          "jwe": [i for i in refs if fam_of(HEAP[i][0]["cls"]) == "jwe"]}
     fam = rng.choice(["jws", "jwe"])
     if fam == "jws":
         op = rng.choice(JWS_SIGN_OPS + JWS_VERIFY_OPS + ["jws.get_alg"])
         verify = op in JWS_VERIFY_OPS
         b64v = rng.choice([ABSENT, ABSENT, True, False]) if op.startswith("rfc7797") else ABSENT
-        cand = by["7797"] if b64v is not ABSENT else by["jws"] + by["7797"]
+        cand = by["7797"] if b64v is not ABSENT else by["jws"]
         if op == "jws.get_alg":
             name = rng.choice(g.jws_names + ["XX"])
             used = [name]
@@ -916,7 +980,8 @@ def shared_call(g, ctx, refs):
             used = algs
             d = {"op": op, "algs": algs, "b64": b64v}
         universe, rec = g.jws_names, REC_JWS
-        fresh_cls = "7797" if b64v is not ABSENT else rng.choice(["jws", "7797"])
+        fresh_cls = rng.choice(["jws", "7797", "jws-sub", "7797-sub"])
+        fresh_b64 = b64v is not ABSENT
     else:
         op = rng.choice(JWE_ENC_OPS + JWE_DEC_OPS + ["jwe.get_alg", "jwe.get_enc", "jwe.get_zip"])
         cand = by["jwe"]
@@ -933,7 +998,8 @@ def shared_call(g, ctx, refs):
             used = algs + [enc] + ([] if z is ABSENT else [z])
             d = {"op": op, "algs": algs, "enc": enc, "zip": z}
         universe, rec = g.jwe_universe, REC_JWE
-        fresh_cls = "jwe"
+        fresh_cls = rng.choice(["jwe", "jwe", "jwe-sub"])
+        fresh_b64 = False
     gate = op in GATE_OPS
     r = rng.random()
     if cand and (r < 0.72 or gate):
@@ -941,7 +1007,7 @@ def shared_call(g, ctx, refs):
     elif r < 0.85 and not gate and not op.endswith("/jwe"):
         d["registry"] = ABSENT
     else:
-        d["registry"] = ("fresh", g.settings(fresh_cls, g.allow_for(used, universe, rec)))
+        d["registry"] = ("fresh", g.settings(fresh_cls, g.allow_for(used, universe, rec), fresh_b64))
     if not gate:
         k = rng.random()
         # per-call override of every shape: absent, None, [], singleton, subset, superset, exact
@@ -959,7 +1025,8 @@ def shared_call(g, ctx, refs):
             d["algorithms"] = list(universe) + ["XX"]
         else:
             d["algorithms"] = g.allow_for(used, universe, rec)
-    if op in ("jwt.encode", "jwt.decode") and d["registry"] is not ABSENT and d["registry"][0] == "fresh":
+    if (op in ("jwt.encode", "jwt.decode") and d["registry"] is not ABSENT and d["registry"][0] == "fresh"
+            and fam_of(d["registry"][1]["cls"]) == "jwe"):
         d["registry"] = ("fresh", dict(d["registry"][1], cls="jws"))
     return d
 
@@ -1263,6 +1330,11 @@ def run(ctx):
                           {"check": "list-mutated", "call": describe(d), "blob": replay_blob(K, [d], 0)})
         if HEAP:
             heap_check(d, "by or before")
+        if d["registry"] is not ABSENT and d["op"] not in GATE_OPS:
+            wk = "way:%s%s:registry=%s%s%s" % (d["op"].split(".")[0], ("+b64" if d.get("b64", ABSENT) is not ABSENT else ""),
+                                               spec_of(d["registry"])["cls"], ("+algorithms" if d["algorithms"] not in (ABSENT, None) else ""),
+                                               (":ok" if v[0] == "ok" else ""))
+            dist[wk] = dist.get(wk, 0) + 1
         bad = direct(d, v, SUP)
         if bad:
             ctx.violation({"kind": bad[0], "op": d["op"]},
@@ -1358,8 +1430,12 @@ def run(ctx):
     shared_calls = 0
     for hno in range(ctx.scale(40, 400)):
         refs = sorted(ctx.rng.sample(range(len(HEAP)), ctx.rng.randrange(3, 8)))
-        if not any(HEAP[i][0]["cls"] == "jwe" for i in refs):
-            refs.append(ctx.rng.choice([i for i in range(len(HEAP)) if HEAP[i][0]["cls"] == "jwe"]))
+        if not any(fam_of(HEAP[i][0]["cls"]) == "jwe" for i in refs):
+            refs.append(ctx.rng.choice([i for i in range(len(HEAP)) if fam_of(HEAP[i][0]["cls"]) == "jwe"]))
+        if not any(fam_of(HEAP[i][0]["cls"]) == "jws" and b64_tolerant(HEAP[i][0]) and not HEAP[i][0]["cls"].startswith("7797") for i in refs):
+            refs.append(ctx.rng.choice([i for i in range(len(HEAP)) if fam_of(HEAP[i][0]["cls"]) == "jws"
+                                        and b64_tolerant(HEAP[i][0]) and not HEAP[i][0]["cls"].startswith("7797")]))
+        refs = sorted(set(refs))
         local = {gi: li for li, gi in enumerate(refs)}
         hist, verdicts = [], []
         for pos in range(ctx.rng.randrange(2, 41)):
